@@ -9,7 +9,15 @@ from lib import common, play, stories
 
 LEVEL = "proof"
 THEOREM_MODULES = ["Proofs.C01"]
-REQUIRED_THEOREMS = []   # set below once the theorem module is in
+REQUIRED_THEOREMS = [
+    "Ink.C01.wrap32_range", "Ink.C01.wrap32_id", "Ink.C01.wrap32_congr", "Ink.C01.wrap32_eq_wrapI32", "Ink.C01.intOp_range",
+    "Ink.C01.intOp_div_zero", "Ink.C01.intOp_error_iff", "Ink.C01.cleanText_idem", "Ink.C01.cleanText_no_edge_blanks",
+    "Ink.C01.cleanText_no_double_blank", "Ink.C01.trimBlanks_idem", "Ink.C01.linesOf_no_empty_line",
+    "Ink.C01.linesOf_texts_clean", "Ink.C01.play_turns_nonempty", "Ink.C01.play_status_choice_iff", "Ink.C01.play_prefix",
+    "Ink.C01.play_append_of_not_choice", "Ink.C01.play_extend", "Ink.C01.restoreSnapshot_state",
+    "Ink.C01.discardSnapshot_keeps", "Ink.C01.stateSnapshot_saves", "Ink.C01.lookahead_undone",
+    "Ink.C01.continueSingleStep_rewind", "Ink.C01.continueSingleStep_snapshot", "Ink.C01.stepLoop_newline",
+]
 RULE = ("a case = one choice path of one program: programs are drawn from the generator over core Ink (gen/srcgen.py: "
         "knots, stitches, diverts, weave choices and gathers with once-only / sticky / conditional / fallback / labelled "
         "forms and [bracket] text, inline and block conditionals, sequences / cycles / once-only alternatives, VAR / temp "
@@ -95,7 +103,7 @@ def run(ctx):
             ctx.count("paths_agree", res["agree"])
             ctx.count("paths_fuel", res["fuel"])
             for k in range(res["paths"]):
-                ctx.case(f"{res['name']}#{k}", True)
+                ctx.case(f"{res['name']}#{k}", k > 0)   # path 0 is the empty choice sequence
             if res["bad"]:
                 path, real, model, why = res["bad"][0]
                 if res["kind"] == "corpus" and res["expect"] != "agree":
